@@ -374,7 +374,7 @@ def run_harnesses(bins, cases):
     def work(j):
         tag, ci = j
         # a chunk normally takes well under a second; a hang (e.g. a loop that no longer advances) costs one timeout per restart
-        r = core.run_grouped(bins[tag], [("g", chunks[ci])], timeout=30, max_restarts=2)
+        r = core.run_grouped(bins[tag], [("g", chunks[ci])], timeout=900, max_restarts=2, cpu=30)   # 30 s of CPU, wall time only as a backstop
         return tag, ci, r[0][1]
     out = {tag: [None] * len(chunks) for (tag, _) in VARIANTS}
     for tag, ci, ans in core.parallel_map(work, jobs, workers=16):
